@@ -144,9 +144,69 @@ def run_route(case, path):
                 Experiment(eval_tuples=triples, description=case.get("desc")).run(path, processes=1, seed=case.get("seed", 1))
             set_skip(fail)
             res = Experiment(eval_tuples=triples, description=case.get("desc")).run(path, processes=1, seed=case.get("seed", 1))
+            if path is not None and case.get("punch"):
+                # the existing file holds a non-prefix subset of a complete log: delete the chosen E/L/V/I records, run again
+                punch_file(case, path)
+                res = Experiment(eval_tuples=triples, description=case.get("desc")).run(path, processes=1, seed=case.get("seed", 1))
             return res, None, ctx.msgs, [v.calls for v in vals]
         except Exception as ex:  # the final read of the log raised
             return None, type(ex).__name__, ctx.msgs, [v.calls for v in vals]
+
+
+FNAME_SHAPES = {
+    "plain": ("", "result.log"), "gz": ("", "result.log.gz"), "gz-inside": ("", "result.gz.bak"), "gz-dir": ("runs.gz.d", "result.log"),
+    "space-unicode": ("d \u00e9", "r \u00fc n.log"), "space-unicode-gz": ("", "r \u00e9 s.log.gz"), "upper-gz": ("", "result.GZ"), "dot": ("", ".gz.log"),
+}
+
+
+def fname_shape(case):
+    return case.get("fname") or ("gz" if case.get("gz") else "plain")
+
+
+def is_gzip_name(path):
+    """both DiskSink and DiskSource treat a path as gzip when it contains '.gz'"""
+    return ".gz" in path
+
+
+def punched_records(case):
+    """the records of a complete log that `punch` deletes: set of ('E',id) / ('L',id) / ('V',id) / ('I',(e,l,v)) in log ids"""
+    eid, lid, vid = assign_ids(case)
+    out = set()
+    for sel in case.get("punch") or []:
+        kind, x = sel
+        if kind == "E" and x in eid:
+            out.add(("E", eid[x]))
+        elif kind == "L" and x in lid:
+            out.add(("L", lid[x]))
+        elif kind == "V" and x in vid:
+            out.add(("V", vid[x]))
+        elif kind == "I" and x[0] in eid and x[1] in lid and x[2] in vid:
+            out.add(("I", (eid[x[0]], lid[x[1]], vid[x[2]])))
+    return out
+
+
+def punch_file(case, path):
+    """rewrite the result file without the punched records (version and experiment lines always stay)"""
+    import gzip
+    opener = gzip.open if is_gzip_name(path) else open
+    with opener(path, "rb") as f:
+        lines = f.read().split(b"\n")
+    gone = punched_records(case)
+    keep = []
+    for ln in lines:
+        if not ln.strip():
+            continue
+        rec = json.loads(ln.decode("utf-8"))
+        key = None
+        if rec and rec[0] in ("E", "L", "V"):
+            key = (rec[0], rec[1])
+        elif rec and rec[0] == "I":
+            key = ("I", tuple(rec[1]))
+        if key in gone:
+            continue
+        keep.append(ln)
+    with opener(path, "wb") as f:
+        f.write(b"".join(k + b"\n" for k in keep))
 
 
 def run_impl(case):
@@ -158,7 +218,10 @@ def run_impl(case):
     logs["nofile"] = m1
     d = tempfile.mkdtemp(prefix="c07_")
     try:
-        path = os.path.join(d, "result.log" + (".gz" if case.get("gz") else ""))
+        sub, base = FNAME_SHAPES[fname_shape(case)]
+        if sub:
+            os.makedirs(os.path.join(d, sub), exist_ok=True)
+        path = os.path.join(d, sub, base)
         r2, x2, m2, _ = run_route(case, path)
         out["file"] = canon_result(r2) if r2 is not None else {"raised": x2}
         logs["file"] = m2
@@ -259,6 +322,18 @@ def transactions(case):
         return {"t": "T4", "ids": [eid[e], lid[l], vid[v]], "rows": [r for r in rows_of(case, tri)]}
 
     tris = [tuple(t) for t in case["triples"]]
+    if case.get("punch") and case.get("phases", 1) == 1:
+        gone = punched_records(case)
+
+        def key(tx):
+            if tx["t"] == "T4":
+                return ("I", tuple(tx["ids"]))
+            return ({"T1": "E", "T2": "L", "T3": "V"}[tx["t"]], tx["id"])
+        full = comps + [t4(t) for t in tris if t not in fail]
+        p1 = [tx for tx in full if key(tx) not in gone]
+        # the second run records what is missing and evaluates every triple without a row in the table
+        p2 = [tx for tx in comps if key(tx) in gone] + [t4(t) for t in tris if t not in fail and (key(t4(t)) in gone or table_is_empty(rows_of(case, t)))]
+        return p1, p2
     if case.get("phases", 1) == 2:
         p1 = comps + [t4(t) for t in tris if t not in fail and t not in skip1]
         done_nonempty = [t for t in tris if t not in fail and t not in skip1 and not table_is_empty(rows_of(case, t))]
@@ -509,8 +584,8 @@ def check_property(case, impl):
     for a, b in (("nofile", "file"), ("file", "from_file")):
         for tbl in ("exp", "envs", "lrns", "vals", "ints"):
             if impl[a][tbl] != impl[b][tbl]:
-                fails.append(F("B", "routes differ: %s of the Result via %s is %s, via %s it is %s (gz=%s, phases=%s)" % (
-                    tbl, a, json.dumps(impl[a][tbl])[:300], b, json.dumps(impl[b][tbl])[:300], case.get("gz"), case.get("phases", 1)),
+                fails.append(F("B", "routes differ: %s of the Result via %s is %s, via %s it is %s (file name shape %s, phases=%s)" % (
+                    tbl, a, json.dumps(impl[a][tbl])[:300], b, json.dumps(impl[b][tbl])[:300], fname_shape(case), case.get("phases", 1)),
                     "routes-differ:%s/%s:%s" % (a, b, tbl)))
     if fails:
         return fails
@@ -774,7 +849,8 @@ class C07(Property):
     rule = ("a case is an experiment (1-3 environments, 1-3 learners, 1-2 evaluators, a non-empty set of triples) whose instrumented evaluators yield generated rows "
             "(ragged field sets, str/int/bool/None/float/tuple field names, None, bools, ints, floats incl. decimal ties at the 5th decimal, NaN/inf, -0.0, unicode/newline strings, "
             "nested lists/tuples/dicts) and whose components carry generated params; it is run through Experiment.run without a file, with a plain or .gz file (fresh, or "
-            "restored after a first run in which some evaluations failed) and Result.from_file. Non-trivial: at least one completed triple with >= 2 rows and >= 2 distinct fields. "
+            "restored after a first run in which some evaluations failed, or restored from a complete log out of which PRNG-chosen E/L/V/I records were deleted - a non-prefix subset) "
+            "under result-file names of several shapes (x.log, x.log.gz, x.gz.bak, a.gz.d/x.log, names with spaces/unicode, .GZ) and Result.from_file. Non-trivial: at least one completed triple with >= 2 rows and >= 2 distinct fields. "
             "Distinct = distinct canonical JSON of the case.")
     trusted_base = [
         "json text codec (json.dumps/json.loads), file write/read and gzip: modelled as the identity on values modulo tuple->list and key->string (jsonify); checked on every case by (A)",
@@ -811,13 +887,30 @@ class C07(Property):
             triples = sorted(triples)
         rows = [[t, gen_rows(rng, prone, None)] for t in triples]
         case = {"envs": envs, "lrns": lrns, "vals": vals, "triples": triples, "rows": rows,
-                "desc": rng.choice([None, "plain", "é\nü \"q\"", ""]), "gz": rng.chance(0.4), "seed": rng.choice([1, 1, 7, 0]),
+                "desc": rng.choice([None, "plain", "é\nü \"q\"", ""]), "gz": False, "seed": rng.choice([1, 1, 7, 0]),
                 "phases": 1, "skip1": [], "fail": []}
+        case["fname"] = rng.wchoice([(34, "plain"), (26, "gz"), (10, "gz-inside"), (10, "gz-dir"), (6, "space-unicode"), (6, "space-unicode-gz"), (4, "upper-gz"), (4, "dot")])
+        case["gz"] = is_gzip_name(os.path.join(*FNAME_SHAPES[case["fname"]]))
         if rng.chance(0.2):
             case["fail"] = rng.sample(triples, 1)
-        if rng.chance(0.45):
+        mode = rng.wchoice([(35, "fresh"), (35, "two"), (30, "punch")])
+        if mode == "two":
             case["phases"] = 2
             case["skip1"] = rng.subset(triples, 0.5)
+        elif mode == "punch":
+            # a restored run on a file holding a NON-PREFIX subset of the records of a complete log
+            sels = [["E", e] for e in sorted({t[0] for t in triples})] + [["L", l] for l in sorted({t[1] for t in triples})] \
+                + [["V", v] for v in sorted({t[2] for t in triples})] + [["I", t] for t in triples]
+            k = rng.choice([1, 1, 2, 3, len(sels) // 2, len(sels)])
+            case["punch"] = rng.sample(sels, max(1, min(k, len(sels))))
+            if rng.chance(0.5):
+                # bias towards a gap: drop the record of the lowest id of one table, keep the higher ones
+                kind, pos = rng.choice([("E", 0), ("L", 1), ("V", 2)])
+                ids_in_order = []
+                for t in triples:
+                    if t[pos] not in ids_in_order:
+                        ids_in_order.append(t[pos])
+                case["punch"] = [sel for sel in case["punch"] if sel[0] != kind] + [[kind, ids_in_order[0]]]
         return case
 
     def search(self, rng, tier):
@@ -855,6 +948,21 @@ class C07(Property):
                            [[1, 1, 0], [D((S("never"), I(0)))]]],
                   "phases": 2, "skip1": [[1, 0, 0], [0, 1, 0]], "fail": [[1, 1, 0]], "gz": True})
         cs.append(c)
+        # result-file names of every shape (DiskSink and DiskSource must agree on what is gzip)
+        for shape in FNAME_SHAPES:
+            for ph in (1, 2):
+                cs.append(base([D((S("a"), I(1)), (S("t"), S("h\u00e9llo\nw")))], fname=shape, gz=is_gzip_name(os.path.join(*FNAME_SHAPES[shape])), phases=ph))
+        # restored run on a log with gaps: the record of id 0 is missing while id 1 is there (and other non-prefix subsets)
+        g = base([])
+        g.update({"envs": [{"params": D((S("name"), S("envA")))}, {"params": D((S("name"), S("envB")))}],
+                  "lrns": [{"params": D((S("name"), S("first")), (S("lr"), ["f", "0.5"]))}, {"params": D((S("name"), S("second")))}],
+                  "vals": [{"params": D((S("v"), I(1))), "lazy": True}, {"params": None, "lazy": False}],
+                  "triples": [[0, 0, 0], [0, 1, 0], [1, 0, 1], [1, 1, 1]],
+                  "rows": [[[e, l, v], [D((S("reward"), I(1)), (S("k"), S("a"))), D((S("reward"), I(0)), (S("k"), S("b")))]] for e, l, v in [[0, 0, 0], [0, 1, 0], [1, 0, 1], [1, 1, 1]]]})
+        for shape in ("plain", "gz"):
+            for punch in ([["E", 0]], [["L", 0]], [["V", 0]], [["E", 0], ["L", 0], ["V", 0]], [["I", [0, 1, 0]]], [["E", 1], ["I", [0, 0, 0]], ["I", [1, 1, 1]]],
+                          [["E", 0], ["E", 1], ["L", 0], ["L", 1], ["V", 0], ["V", 1], ["I", [0, 0, 0]], ["I", [0, 1, 0]], ["I", [1, 0, 1]], ["I", [1, 1, 1]]]):
+                cs.append(dict(json.loads(json.dumps(g)), fname=shape, gz=(shape == "gz"), punch=punch))
         return cs
 
     # ---- evaluation
@@ -868,7 +976,16 @@ class C07(Property):
         # tags / non-triviality
         nontrivial = False
         tags.append("phases:%d" % case.get("phases", 1))
-        tags.append("gz" if case.get("gz") else "plain")
+        tags.append("fname:" + fname_shape(case))
+        if case.get("punch"):
+            gone = punched_records(case)
+            for kk in sorted({g[0] for g in gone}):
+                tags.append("punch:" + kk)
+            for kk, pos in (("E", 0), ("L", 1), ("V", 2)):
+                ids = sorted(x for k2, x in gone if k2 == kk)
+                n = len({t[pos] for t in case["triples"]})
+                if ids and len(ids) < n and ids != list(range(n - len(ids), n)):
+                    tags.append("punch:gap:" + kk)
         if case.get("fail"):
             tags.append("failing-triple")
         if case.get("phases", 1) == 2:
@@ -997,6 +1114,19 @@ class C07(Property):
                 c["rows"] = [[rn(t), r] for t, r in c["rows"]]
                 c["skip1"] = [rn(t) for t in c["skip1"]]
                 c["fail"] = [rn(t) for t in c["fail"]]
+                kind_of_pos = "ELV"[pos]
+                pn = []
+                for sel in c.get("punch") or []:
+                    if sel[0] == kind_of_pos:
+                        if sel[1] in ren:
+                            pn.append([sel[0], ren[sel[1]]])
+                    elif sel[0] == "I":
+                        if sel[1][pos] in ren:
+                            pn.append(["I", rn(sel[1])])
+                    else:
+                        pn.append(sel)
+                if "punch" in c:
+                    c["punch"] = pn
                 yield c
         if len(tris) > 1:
             for i in range(len(tris)):
@@ -1005,11 +1135,17 @@ class C07(Property):
                 c["rows"] = [tr for tr in c["rows"] if tr[0] != t]
                 c["skip1"] = [x for x in c["skip1"] if x != t]
                 c["fail"] = [x for x in c["fail"] if x != t]
+                if c.get("punch"):
+                    c["punch"] = [sel for sel in c["punch"] if not (sel[0] == "I" and sel[1] == t)]
                 yield c
         if case.get("phases", 1) == 2:
             c = cp(case); c["phases"] = 1; c["skip1"] = []; yield c
-        if case.get("gz"):
-            c = cp(case); c["gz"] = False; yield c
+        if fname_shape(case) != "plain":
+            c = cp(case); c["gz"] = False; c["fname"] = "plain"; yield c
+        if case.get("punch"):
+            c = cp(case); c["punch"] = []; yield c
+            for i in range(len(case["punch"])):
+                c = cp(case); c["punch"].pop(i); yield c
         if case.get("fail"):
             c = cp(case); c["fail"] = []; yield c
         if case.get("desc") is not None:
